@@ -18,6 +18,7 @@ pub mod sats;
 pub mod settings;
 pub mod storage;
 pub mod text;
+pub mod wallet;
 
 pub fn dispatch(id: &str) -> Option<fn(&mut Session) -> Meta> {
   Some(match id {
@@ -41,6 +42,8 @@ pub fn dispatch(id: &str) -> Option<fn(&mut Session) -> Meta> {
     "C18" => explorer::c18,
     "C19" => content::c19,
     "C20" => builder::c20,
+    "C22" => wallet::c22,
+    "C23" => wallet::c23,
     "C25" => runestone::c25,
     "C26" => pure_ordinals::c26,
     "C27" => envelope::c27,
